@@ -21,7 +21,7 @@ THRESHOLDS = {
     # A solve that uses the wrong factorisation state is off by 1e-2..1; 1e-12 leaves both margins wide.
     "solve_vs_dense": 1e-12,
 }
-MIN_NONTRIVIAL = {"quick": 300, "thorough": 3000}
+MIN_NONTRIVIAL = {"quick": 2000, "thorough": 30000}
 RULE = ("each case draws one class (Vector, SparseMatrixCOO, SparseMatrixCSR, SparseLUSolver, SymmetricTridiagonalSolver "
         "mostly-cyclic / mostly-non-cyclic, DiagonalSolver) and a random history of 4..12 operations over four object slots: "
         "construct(size, random constructor variant), default-construct, set entries (all / one or two, through every setter "
